@@ -1244,3 +1244,25 @@ impl ClearVOBitsAfterPrepare {
         }
     }
 }
+
+/// Hooks for the external verification harnesses (see `crate::verif_hooks`).
+#[cfg(any(kani, mmtk_verif))]
+pub mod verif_hooks {
+    use super::*;
+    /// Runs the real `ImmixSpace::get_next_available_lines` on a space of which only the two line-state
+    /// fields are initialised: they are the only fields that function reads.
+    pub fn get_next_available_lines_with_states<VM: VMBinding>(
+        line_mark_state: u8,
+        line_unavail_state: u8,
+        search_start: Line,
+    ) -> Option<(Line, Line)> {
+        let mut space = std::mem::MaybeUninit::<ImmixSpace<VM>>::uninit();
+        unsafe {
+            std::ptr::addr_of_mut!((*space.as_mut_ptr()).line_mark_state)
+                .write(AtomicU8::new(line_mark_state));
+            std::ptr::addr_of_mut!((*space.as_mut_ptr()).line_unavail_state)
+                .write(AtomicU8::new(line_unavail_state));
+            (*space.as_ptr()).get_next_available_lines(search_start)
+        }
+    }
+}
